@@ -464,9 +464,9 @@ func bounds(tier string) (explore.Bounds, int) {
 	b[explore.KSched] = 3
 	b[explore.KFault] = explore.Unbounded
 	if tier == "thorough" {
-		return b, 3
+		return b, 2
 	}
-	return b, 2
+	return b, 1
 }
 
 func main() {
